@@ -775,7 +775,7 @@ func (u *Universe) rangeFacts(v Term, t types.Type, depth int) []Term {
 	}
 	switch tt := t.Underlying().(type) {
 	case *types.Slice:
-		out = append(out, le(tZero, sLen(v)), le(sLen(v), sCap(v)), le(tZero, sOff(v)),
+		out = append(out, le(tZero, sLen(v)), le(sLen(v), sCap(v)), le(tZero, sOff(v)), le(sCap(v), bigLit(maxInt64)),
 			implies(eq(sBase(v), tZero), eq(sCap(v), tZero)))
 	case *types.Struct:
 		if depth <= 0 {
@@ -794,3 +794,5 @@ func (u *Universe) rangeFacts(v Term, t types.Type, depth int) []Term {
 	}
 	return out
 }
+
+var maxInt64 = new(big.Int).SetInt64(9223372036854775807)
